@@ -76,16 +76,31 @@ class Ctx:
 
     # ------------------------------------------------------------------ harness
     def build(self, race=False):
-        """Build the Go harness against /repo's current working tree with the verif tag."""
+        """Build the Go harness against the repository's current working tree with the verif tag.
+
+        The repository is /repo; VERIF_REPO=<dir> points the build at another checkout (used only to try
+        seeded changes in scratch worktrees side by side - registered checks always run against /repo)."""
         name = "vh-race" if race else "vh"
-        out = os.path.join(OUT, "bin", name)
-        os.makedirs(os.path.dirname(out), exist_ok=True)
         hdir = os.path.join(VERIF, "harness")
+        if os.path.abspath(REPO) != "/repo":
+            out = os.path.join(self.work, "bin", name)
+            scratch = os.path.join(self.work, "harness")
+            if not os.path.exists(scratch):
+                shutil.copytree(hdir, scratch)
+                gm = os.path.join(scratch, "go.mod")
+                with open(gm) as f:
+                    t = f.read()
+                with open(gm, "w") as f:
+                    f.write(t.replace("=> /repo", "=> " + os.path.abspath(REPO)))
+            hdir = scratch
+        else:
+            out = os.path.join(OUT, "bin", name)
+        os.makedirs(os.path.dirname(out), exist_ok=True)
         gosum = os.path.join(hdir, "go.sum")
-        if not os.path.exists(gosum):
-            shutil.copy(os.path.join(REPO, "go.sum"), gosum)
+        shutil.copy(os.path.join(REPO, "go.sum"), gosum)
         cmd = ["go", "build", "-tags", "verif"] + (["-race"] if race else []) + ["-o", out, "./cmd/vh"]
-        p = subprocess.run(cmd, cwd=hdir, env=GOENV, capture_output=True, text=True)
+        env = dict(GOENV, VERIF_REPO=REPO)
+        p = subprocess.run(cmd, cwd=hdir, env=env, capture_output=True, text=True)
         if p.returncode != 0:
             raise Inconclusive("harness build failed:\n" + p.stdout + p.stderr)
         if race:
@@ -98,6 +113,7 @@ class Ctx:
         """Run the harness; it prints one JSON summary object as its last stdout line."""
         exe = self.vh_race if race else self.vh_path
         e = dict(GOENV)
+        e["VERIF_REPO"] = REPO
         e["VERIF_SEED"] = str(self.seed)
         e["VERIF_TIER"] = self.tier
         if env:
@@ -299,7 +315,9 @@ class Ctx:
                     self.known.append(w)
                 return False
         n = len(self.violations) + 1
-        path = os.path.join(OUT, "replay", "%s-%s-%d.json" % (self.prop, self.tier, n))
+        rdir = os.path.join(OUT, "replay") if os.path.abspath(REPO) == "/repo" else os.path.join(self.work + "-replay")
+        os.makedirs(rdir, exist_ok=True)
+        path = os.path.join(rdir, "%s-%s-%d.json" % (self.prop, self.tier, n))
         replay_obj = dict(replay_obj)
         replay_obj["property"] = self.prop
         replay_obj["what"] = what
@@ -334,8 +352,9 @@ class Ctx:
             "wall_s": round(wall, 2),
             "violations": len(self.violations),
         }
-        os.makedirs(EVID, exist_ok=True)
-        with open(os.path.join(EVID, self.prop + ".json"), "w") as f:
+        evdir = EVID if os.path.abspath(REPO) == "/repo" else self.work + "-evidence"
+        os.makedirs(evdir, exist_ok=True)
+        with open(os.path.join(evdir, self.prop + ".json"), "w") as f:
             json.dump(ev, f, indent=1)
             f.write("\n")
         for w in self.known:
